@@ -2,13 +2,14 @@
 use super::{common_assumptions, PropResult};
 use crate::blobfmt;
 use crate::findings::Findings;
-use crate::interp::{Checks, Exec, Failure};
+use crate::interp::{Checks, Exec, Failure, Stats};
 use crate::ops::*;
 use crate::runner::*;
 use crate::sut::{self, Cfg};
 use crate::trace::Trace;
 use pearl::verif::io as vio;
 use proptest::prelude::*;
+use serde::{Deserialize, Serialize};
 use serde_json::{json, Value};
 use std::collections::BTreeSet;
 use std::path::{Path, PathBuf};
@@ -189,6 +190,182 @@ pub fn run_sync(c: &Case, dir: &Path, findings: &Findings) -> Result<CaseOut, Fa
     res
 }
 
+/// Operations of the sync-fault phase: data writes with an injected failure of a blob sync in between
+#[derive(Clone, Debug, Serialize, Deserialize, PartialEq)]
+pub enum FOp {
+    Write { vlen: u32 },
+    Burst { n: u8, vlen: u32 },
+    WaitIdle,
+    Fsync,
+    /// arm a one-shot failpoint on the n-th sync of a blob file from now on
+    FailSync { nth: u16, eio: bool },
+}
+
+#[derive(Clone, Debug, Serialize, Deserialize)]
+pub struct FaultCase {
+    pub cfg: Cfg,
+    pub ops: Vec<FOp>,
+}
+
+pub fn sync_fault_strategy() -> BoxedStrategy<FaultCase> {
+    let vlen = prop_oneof![3 => 0u32..200, 1 => Just(5000u32), 1 => Just(100_000u32)];
+    let op = prop_oneof![
+        10 => vlen.clone().prop_map(|vlen| FOp::Write { vlen }),
+        2 => (2u8..8, vlen).prop_map(|(n, vlen)| FOp::Burst { n, vlen }),
+        5 => Just(FOp::WaitIdle),
+        1 => Just(FOp::Fsync),
+        3 => (1u16..4, any::<bool>()).prop_map(|(nth, eio)| FOp::FailSync { nth, eio }),
+    ];
+    let limit = prop_oneof![Just(Some(0u64)), Just(Some(1)), Just(Some(100)), Just(Some(4096))];
+    let size = prop_oneof![3 => Just(1u64 << 40), 1 => Just(3000u64), 1 => Just(150_000u64)];
+    let cfg = (cfg_strategy(&[8, 33], true), limit, size).prop_map(|(mut c, l, sz)| {
+        c.dirty_limit = l;
+        c.allow_dup = true;
+        c.max_blob_size = sz;
+        c
+    });
+    (cfg, prop::collection::vec(op, 2..30)).prop_map(|(cfg, ops)| FaultCase { cfg, ops }).boxed()
+}
+
+/// Rule 4 with a failing sync in the history: a sync that failed was performed, and leaves the bytes un-synced;
+/// the next acknowledged write finds the limit exceeded again and must lead to a new sync without further action.
+pub fn run_sync_fault(c: &FaultCase, dir: &Path, _findings: &Findings) -> Result<CaseOut, Failure> {
+    let rt = c.cfg.runtime();
+    let _ = std::fs::remove_dir_all(dir);
+    let session = vio::start_session(dir);
+    session.set_record_payload(true);
+    let limit = c.cfg.dirty_limit.unwrap_or(DEFAULT_LIMIT);
+    let fired = |s: &vio::Session| -> u64 { s.failpoints().iter().map(|f| f.fired).sum() };
+    let res = rt.block_on(async {
+        let fail = |clause: &str, detail: String, step: usize, op: &FOp| -> Result<CaseOut, Failure> { Err(Failure { clause: clause.into(), detail, step, op: format!("{:?}", op) }) };
+        let s = match sut::open(&c.cfg, dir, false).await {
+            Ok(s) => s,
+            Err(e) => return fail("init/err", format!("{:#}", e), 0, &FOp::WaitIdle),
+        };
+        let mut j = Judge { trace: Trace::default(), session: session.clone(), pos: 0, limit, exceeded: false };
+        let mut labels: BTreeSet<String> = BTreeSet::new();
+        let mut stats = Stats::default();
+        // number of fired failpoints seen when the last fully acknowledged write started (None = no such write yet)
+        let mut clean_since: Option<u64> = None;
+        let mut ever_fired = false;
+        let mut judged_after_fault = false;
+        let mut seq = 0u64;
+        for (i, op) in c.ops.iter().enumerate() {
+            stats.steps += 1;
+            match op {
+                FOp::FailSync { nth, eio } => {
+                    ever_fired |= fired(&session) > 0;
+                    session.disarm_all();
+                    session.arm(vio::Failpoint { kind: vio::Kind::Sync, ext: "blob".into(), nth: *nth as u64, errno: if *eio { libc::EIO } else { libc::ENOSPC }, short: None, sticky: false, seen: 0, fired: 0 });
+                    // disarming forgets the fired count of the previous failpoint
+                    clean_since = None;
+                }
+                FOp::Write { .. } | FOp::Burst { .. } => {
+                    let (n, vlen) = match op {
+                        FOp::Write { vlen } => (1u8, *vlen),
+                        FOp::Burst { n, vlen } => (*n, *vlen),
+                        _ => unreachable!(),
+                    };
+                    // a maintenance task that is still running when the write starts may be the failing sync on its way out
+                    // (its in-progress flag still set): such a write is not judged
+                    let task_running = s.bg().tasks_running != 0;
+                    let before = fired(&session);
+                    let mut items = vec![];
+                    for k in 0..n {
+                        seq += 1;
+                        items.push((sut::key_bytes(c.cfg.keylen, (seq % 4) as u8), value_bytes(seq as usize, vlen, 0), seq));
+                    }
+                    stats.writes += n as u64;
+                    let results = {
+                        let s = s.as_ref();
+                        let futs: Vec<_> = items.into_iter().map(|(kb, val, ts)| async move { s.write(&kb, bytes::Bytes::from(val), ts, None).await }).collect();
+                        futures::future::join_all(futs).await
+                    };
+                    let all_ok = results.iter().all(|r| r.is_ok());
+                    if !all_ok && fired(&session) == before {
+                        let e = results.into_iter().find_map(|r| r.err()).unwrap();
+                        return fail("write/err", format!("no failpoint fired: {:#}", e), i, op);
+                    }
+                    clean_since = if all_ok && !task_running { Some(before) } else { None };
+                }
+                FOp::Fsync => {
+                    let before = fired(&session);
+                    let active = active_blob_path(s.as_ref(), dir).await;
+                    match s.fsyncdata().await {
+                        Ok(()) => {
+                            j.pull();
+                            if let Some(p) = active {
+                                let (w, sy) = j.unsynced(&p);
+                                if w != sy && fired(&session) == before {
+                                    return fail("sync/fsyncdata-leaves-unsynced", format!("{}: {} bytes written, {} covered by a completed sync after fsyncdata returned Ok", p.display(), w, sy), i, op);
+                                }
+                            }
+                        }
+                        Err(e) => {
+                            if fired(&session) == before {
+                                return fail("fsyncdata/err", format!("no failpoint fired: {}", e), i, op);
+                            }
+                        }
+                    }
+                }
+                FOp::WaitIdle => {
+                    if let Err(st) = sut::wait_quiet(s.as_ref(), true, crate::interp::max_wait()).await {
+                        let clause = if st.worker_alive() { "bg/stall" } else { "bg/worker-dead" };
+                        return fail(clause, format!("{:?}", st), i, op);
+                    }
+                    j.pull();
+                    let now = fired(&session);
+                    ever_fired |= now > 0;
+                    if ever_fired {
+                        labels.insert("sync_fault_fired".into());
+                    }
+                    if let (Some(p), Some(snap)) = (active_blob_path(s.as_ref(), dir).await, clean_since) {
+                        // no fault since before the last acknowledged write: its completion found the limit exceeded (or not)
+                        // with every earlier byte still counted as un-synced, so the sync it requests covers everything
+                        if snap == now {
+                            let (w, sy) = j.unsynced(&p);
+                            if w - sy.min(w) > j.limit {
+                                return fail("sync/unsynced-above-limit-at-idle", format!("{}: {} bytes written, {} synced, limit {}; background machinery idle, {} sync failure(s) injected earlier", p.display(), w, sy, j.limit, now), i, op);
+                            }
+                            labels.insert("idle_point".into());
+                            if ever_fired {
+                                judged_after_fault = true;
+                                labels.insert("idle_point_after_failed_sync".into());
+                            }
+                        }
+                    }
+                }
+            }
+            j.pull();
+        }
+        session.disarm_all();
+        let _ = sut::wait_quiet(s.as_ref(), false, crate::interp::max_wait()).await;
+        if let Err(e) = s.close().await {
+            return fail("close/err", format!("{:#}", e), c.ops.len(), &FOp::WaitIdle);
+        }
+        j.pull();
+        if let Err((clause, detail)) = j.ordering_rules(c.cfg.keylen) {
+            return fail(&clause, detail, c.ops.len(), &FOp::WaitIdle);
+        }
+        labels.insert(format!("limit_{}", limit));
+        Ok(CaseOut { nontrivial: judged_after_fault, labels, stats, known_hits: BTreeSet::new(), weight: 1 })
+    });
+    vio::end_session(dir);
+    drop(rt);
+    res
+}
+
+async fn active_blob_path(s: &dyn sut::Sut, dir: &Path) -> Option<PathBuf> {
+    if !s.has_active().await {
+        return None;
+    }
+    s.records_count_detailed().await.last().map(|(id, _)| sut::blob_path(dir, *id))
+}
+
+fn sample_fault(c: &FaultCase) -> Value {
+    json!({"cfg": format!("keylen={} dirty_limit={:?} max_blob_size={} rt_workers={}", c.cfg.keylen, c.cfg.dirty_limit, c.cfg.max_blob_size, c.cfg.rt_workers), "ops": c.ops.iter().map(|o| format!("{:?}", o)).collect::<Vec<_>>()})
+}
+
 fn sample(c: &Case) -> Value {
     json!({"cfg": format!("keylen={} dirty_limit={:?} defer_ms={:?} rt_workers={}", c.cfg.keylen, c.cfg.dirty_limit, c.cfg.defer_ms, c.cfg.rt_workers), "ops": render_ops(&c.ops)})
 }
@@ -200,10 +377,14 @@ pub fn run(ctx: &RunCtx) -> PropResult {
     run_replays::<Case, _>(ctx, "sync", &ctx.verif_dir.join("replays").join("C12"), runf, &mut report);
     let runf = |c: &Case, d: &Path| run_sync(c, d, &findings);
     run_generated(ctx, "sync", ctx.tier.pick(4000, 40_000), sync_strategy, runf, &sample, &mut report);
+    let runf = |c: &FaultCase, d: &Path| run_sync_fault(c, d, &findings);
+    run_replays::<FaultCase, _>(ctx, "sync-fault", &ctx.verif_dir.join("replays").join("C12"), runf, &mut report);
+    let runf = |c: &FaultCase, d: &Path| run_sync_fault(c, d, &findings);
+    run_generated(ctx, "sync-fault", ctx.tier.pick(1500, 15_000), sync_fault_strategy, runf, &sample_fault, &mut report);
     PropResult {
         report,
         level: "exploration",
-        rule: "proptest histories (data ops with value sizes around 4 KiB / 80 KiB, concurrent write bursts, explicit fsyncdata, close/create/restore/force_update of the active blob, restarts, wait-idle) for max_dirty_bytes_before_sync in {0, 1, 100, 4096, 1 MiB, default}, run under the I/O tap with payload capture. Oracle = four rules over the ordered trace of create/write/sync events (a write counts as covered by a sync only if its end event precedes the sync's begin event): (1) every created *.blob starts with the 20-byte header and a completed sync of that file precedes its second write; (2) every index header rewrite with the written bit set is preceded by a completed sync of the sibling blob that began after all bytes below the recorded blob_size were written; (3) when fsyncdata(), try_close_active_blob()/close_active_blob_in_background() or close() have returned, every byte written to that blob is covered by a completed sync; (4) at every idle point (H3 probe: no message queued or in process, no task running) the active blob's un-synced bytes are within the limit. Non-trivial = the limit was exceeded at some step or an index was marked complete. distinct = FNV hash of the serialized case.".into(),
+        rule: "proptest histories (data ops with value sizes around 4 KiB / 80 KiB, concurrent write bursts, explicit fsyncdata, close/create/restore/force_update of the active blob, restarts, wait-idle) for max_dirty_bytes_before_sync in {0, 1, 100, 4096, 1 MiB, default}, run under the I/O tap with payload capture. Oracle = four rules over the ordered trace of create/write/sync events (a write counts as covered by a sync only if its end event precedes the sync's begin event): (1) every created *.blob starts with the 20-byte header and a completed sync of that file precedes its second write; (2) every index header rewrite with the written bit set is preceded by a completed sync of the sibling blob that began after all bytes below the recorded blob_size were written; (3) when fsyncdata(), try_close_active_blob()/close_active_blob_in_background() or close() have returned, every byte written to that blob is covered by a completed sync; (4) at every idle point (H3 probe: no message queued or in process, no task running) the active blob's un-synced bytes are within the limit. A second phase (sync-fault) generates write / concurrent-burst / fsyncdata / wait-idle histories in which the n-th sync of a blob file fails once (failpoint, EIO or ENOSPC), for limits {0, 1, 100, 4096} with and without blob rotation: a failed sync leaves the bytes un-synced, and rule 4 is judged at every idle point that follows an acknowledged write made after the failure (that write finds the limit exceeded again, so a new sync has to happen); an error of a call is accepted only if a failpoint fired during it. Non-trivial = the limit was exceeded at some step or an index was marked complete (sync phase); rule 4 judged after an injected sync failure (sync-fault phase). distinct = FNV hash of the serialized case.".into(),
         assumptions: {
             let mut a = common_assumptions();
             a.push("rule 4 turns 'eventually' into 'once nothing is pending' (quiescence observed through the H3 probe)".into());
@@ -216,6 +397,9 @@ pub fn replay_other(phase: &str, case: &Value, dir: &Path, findings: &Findings) 
     if phase == "sync" {
         let runf = |c: &Case, d: &Path| run_sync(c, d, findings);
         serde_json::from_value::<Case>(case.clone()).ok().map(|c| guarded(&c, dir, &runf))
+    } else if phase == "sync-fault" {
+        let runf = |c: &FaultCase, d: &Path| run_sync_fault(c, d, findings);
+        serde_json::from_value::<FaultCase>(case.clone()).ok().map(|c| guarded(&c, dir, &runf))
     } else {
         None
     }
